@@ -302,11 +302,8 @@ func (c *aConn) ExecContext(ctx context.Context, q string, args []driver.NamedVa
 	case *ast.UpdateStmt:
 		d.lastKind = "update"
 		n := int64(0)
-		for i := range d.rows {
+		for _, i := range d.matching(x.Where, x.Order, x.Limit, args) {
 			r := &d.rows[i]
-			if !r.present || !d.where(x.Where, r, args) {
-				continue
-			}
 			before := aRow{cells: append([]int64(nil), r.cells...), present: true}
 			e := &aEval{d: d, row: &before, args: args}
 			for _, as := range x.List {
@@ -328,11 +325,8 @@ func (c *aConn) ExecContext(ctx context.Context, q string, args []driver.NamedVa
 	case *ast.DeleteStmt:
 		d.lastKind = "delete"
 		n := int64(0)
-		for i := range d.rows {
+		for _, i := range d.matching(x.Where, x.Order, x.Limit, args) {
 			r := &d.rows[i]
-			if !r.present || !d.where(x.Where, r, args) {
-				continue
-			}
 			d.changedBefore = append(d.changedBefore, aRow{cells: append([]int64(nil), r.cells...), present: true})
 			r.present = false
 			n++
@@ -497,11 +491,8 @@ func (c *aConn) QueryContext(ctx context.Context, q string, args []driver.NamedV
 	for _, f := range fields {
 		out.cols = append(out.cols, d.cols[f])
 	}
-	for i := range d.rows {
+	for _, i := range d.matching(sel.Where, sel.OrderBy, sel.Limit, args) {
 		r := &d.rows[i]
-		if !r.present || !d.where(sel.Where, r, args) {
-			continue
-		}
 		var vals []driver.Value
 		for _, f := range fields {
 			vals = append(vals, r.cells[f])
@@ -533,4 +524,64 @@ func (d *aDB) savepointStmt(q string) bool {
 		return true
 	}
 	return false
+}
+
+// matching returns the indices of the present rows the WHERE clause selects,
+// in ORDER BY order (table order otherwise, as a stable sort keeps it), cut by LIMIT.
+func (d *aDB) matching(where ast.ExprNode, order *ast.OrderByClause, limit *ast.Limit, args []driver.NamedValue) []int {
+	var idx []int
+	for i := range d.rows {
+		r := &d.rows[i]
+		if r.present && d.where(where, r, args) {
+			idx = append(idx, i)
+		}
+	}
+	if order != nil {
+		less := func(a, b int) bool { // strictly before
+			for _, it := range order.Items {
+				ea := &aEval{d: d, row: &d.rows[a], args: args}
+				eb := &aEval{d: d, row: &d.rows[b], args: args}
+				va, vb := aInt(ea.eval(it.Expr)), aInt(eb.eval(it.Expr))
+				if ea.bad != "" || eb.bad != "" {
+					d.bad = "adb: unsupported ORDER BY item"
+				}
+				if va == vb {
+					continue
+				}
+				if it.Desc {
+					return va > vb
+				}
+				return va < vb
+			}
+			return false
+		}
+		// insertion sort (stable)
+		for i := 1; i < len(idx); i++ {
+			for j := i; j > 0 && less(idx[j], idx[j-1]); j-- {
+				idx[j], idx[j-1] = idx[j-1], idx[j]
+			}
+		}
+	}
+	if limit != nil {
+		e := &aEval{d: d, args: args}
+		if limit.Offset != nil {
+			off := int(aInt(e.eval(limit.Offset)))
+			if off > len(idx) {
+				off = len(idx)
+			}
+			if off > 0 {
+				idx = idx[off:]
+			}
+		}
+		if limit.Count != nil {
+			n := int(aInt(e.eval(limit.Count)))
+			if n >= 0 && n < len(idx) {
+				idx = idx[:n]
+			}
+		}
+		if e.bad != "" {
+			d.bad = "adb: unsupported LIMIT"
+		}
+	}
+	return idx
 }
